@@ -1,0 +1,318 @@
+//go:build verif
+
+// Contracts for the twisted-Edwards companion curve a x^2 + y^2 = 1 + d x^2 y^2 of this curve (comment-only;
+// installed by /verif/gcv gen-contracts). Layer "ring fr.Element": coordinates are elements of an abstract
+// commutative ring, a is the documented constant (-5), d is the cell curveParams.D (an arbitrary ring element).
+//
+// The textbook addition law is
+//     (x1,y1) + (x2,y2) = ( (x1 y2 + y1 x2) / (1 + k),  (y1 y2 - a x1 x2) / (1 - k) ),   k = d x1 x2 y1 y2.
+// Projective inputs are parametrised by the affine point they represent and their scaling
+// ("let p1.X = x1*p1.Z": a substitution, no hypothesis remains); each clause is cross-multiplied:
+//     X3 * (1 + k) == (x1 y2 + y1 x2) * Z3      (and the exact value of Z3, which shows when the result is finite).
+// Dedicated doublings and the d-free "dual" addition (extended MixedAdd) are only correct for points ON the curve:
+// their clauses use eqmod(l, r), which holds when l - r rewrites to 0 with the curve equation(s) of the
+// operand(s) stated as "modulo d x^2 y^2 = a x^2 + y^2 - 1" (a certificate of ideal membership found by the
+// tool: sound in every commutative ring, unlike an SMT hypothesis over the integers).
+// eqmod(l, r, m, v) adds the hypothesis m == v inline (a monomial m): the guard of that clause must justify it
+// (normalized = IsOne(Z) justifies "Z -> 1").
+// Division is x * inv(y): clauses carry the factor y*inv(y) (1 whenever y is invertible).
+
+package bandersnatch
+
+//@ func mulByA
+//@ layer ring fr.Element
+//@ option distribute
+//@ option inline
+//@ ensures[value] *x == (-5) * old(*x)
+//@ modifies x
+//@ end
+
+// ---------------- affine ----------------
+
+//@ func PointAffine.Set
+//@ layer ring fr.Element
+//@ option distribute
+//@ ensures[value] p.X == old(p1.X) && p.Y == old(p1.Y)
+//@ ensures[result] result == p
+//@ modifies p
+//@ end
+
+//@ func PointAffine.Neg
+//@ layer ring fr.Element
+//@ option distribute
+//@ ensures[value] p.X == -old(p1.X) && p.Y == old(p1.Y)
+//@ ensures[result] result == p
+//@ modifies p
+//@ end
+
+//@ func PointAffine.IsOnCurve
+//@ layer ring fr.Element
+//@ option distribute
+//@ ensures[value] result == iszero((-5)*p.X*p.X + p.Y*p.Y - 1 - curveParams.D*p.X*p.X*p.Y*p.Y)
+//@ modifies nothing
+//@ end
+
+//@ func PointAffine.Add
+//@ layer ring fr.Element
+//@ option distribute
+//@ ghost k = curveParams.D * p1.X * p2.X * p1.Y * p2.Y
+//@ ghost nx = p1.X*p2.Y + p1.Y*p2.X
+//@ ghost ny = p1.Y*p2.Y - (-5)*p1.X*p2.X
+//@ ensures[x] p.X * (1 + k) == nx * ((1 + k) * inv(1 + k))
+//@ ensures[y] p.Y * (1 - k) == ny * ((1 - k) * inv(1 - k))
+//@ ensures[result] result == p
+//@ modifies p
+//@ end
+
+//@ func PointAffine.Double
+//@ layer ring fr.Element
+//@ option distribute
+//@ modulo curveParams.D*p1.X*p1.X*p1.Y*p1.Y = (-5)*p1.X*p1.X + p1.Y*p1.Y - 1
+//@ ghost k = curveParams.D * p1.X * p1.X * p1.Y * p1.Y
+//@ ghost den = (-5)*p1.X*p1.X + p1.Y*p1.Y
+//@ ghost x1 = p1.X
+//@ ghost y1 = p1.Y
+//@ ensures[x] eqmod(p.X * (1 + k), 2*x1*y1 * (den * inv(den)))
+//@ ensures[y] eqmod(p.Y * (1 - k), (y1*y1 - (-5)*x1*x1) * ((2 - den) * inv(2 - den)))
+//@ ensures[result] result == p
+//@ modifies p
+//@ end
+
+//@ func PointAffine.FromProj
+//@ layer ring fr.Element
+//@ option distribute
+//@ ensures[x] p.X * p1.Z == p1.X * (p1.Z * inv(p1.Z))
+//@ ensures[y] p.Y * p1.Z == p1.Y * (p1.Z * inv(p1.Z))
+//@ ensures[result] result == p
+//@ modifies p
+//@ end
+
+//@ func PointAffine.FromExtended
+//@ layer ring fr.Element
+//@ option distribute
+//@ ensures[x] p.X * p1.Z == p1.X * (p1.Z * inv(p1.Z))
+//@ ensures[y] p.Y * p1.Z == p1.Y * (p1.Z * inv(p1.Z))
+//@ ensures[result] result == p
+//@ modifies p
+//@ end
+
+//@ func PointAffine.setInfinity
+//@ layer ring fr.Element
+//@ option distribute
+//@ ensures[value] p.X == 0 && p.Y == 1
+//@ ensures[result] result == p
+//@ modifies p
+//@ end
+
+// ---------------- projective ----------------
+
+//@ func PointProj.Set
+//@ layer ring fr.Element
+//@ option distribute
+//@ ensures[value] p.X == old(p1.X) && p.Y == old(p1.Y) && p.Z == old(p1.Z)
+//@ ensures[result] result == p
+//@ modifies p
+//@ end
+
+//@ func PointProj.setInfinity
+//@ layer ring fr.Element
+//@ option distribute
+//@ ensures[value] p.X == 0 && p.Y == 1 && p.Z == 1
+//@ ensures[result] result == p
+//@ modifies p
+//@ end
+
+//@ func PointProj.Neg
+//@ layer ring fr.Element
+//@ option distribute
+//@ ensures[value] p.X == -old(p1.X) && p.Y == old(p1.Y) && p.Z == old(p1.Z)
+//@ ensures[result] result == p
+//@ modifies p
+//@ end
+
+//@ func PointProj.FromAffine
+//@ layer ring fr.Element
+//@ option distribute
+//@ ensures[value] p.X == p1.X && p.Y == p1.Y && p.Z == 1
+//@ ensures[result] result == p
+//@ modifies p
+//@ end
+
+//@ func PointProj.MixedAdd
+//@ layer ring fr.Element
+//@ option distribute
+//@ ghost-param x1, y1
+//@ let p1.X = x1*p1.Z
+//@ let p1.Y = y1*p1.Z
+//@ ghost k = curveParams.D * x1 * p2.X * y1 * p2.Y
+//@ ghost nx = x1*p2.Y + y1*p2.X
+//@ ghost ny = y1*p2.Y - (-5)*x1*p2.X
+//@ ghost z1 = p1.Z
+//@ ensures[x] p.X * (1 + k) == nx * p.Z
+//@ ensures[y] p.Y * (1 - k) == ny * p.Z
+//@ ensures[z] p.Z == pow(z1, 4) * (1 - k) * (1 + k)
+//@ ensures[result] result == p
+//@ modifies p
+//@ end
+
+//@ func PointProj.Add
+//@ layer ring fr.Element
+//@ option distribute
+//@ ghost-param x1, y1, x2, y2
+//@ let p1.X = x1*p1.Z
+//@ let p1.Y = y1*p1.Z
+//@ let p2.X = x2*p2.Z
+//@ let p2.Y = y2*p2.Z
+//@ ghost k = curveParams.D * x1 * x2 * y1 * y2
+//@ ghost nx = x1*y2 + y1*x2
+//@ ghost ny = y1*y2 - (-5)*x1*x2
+//@ ghost z12 = p1.Z * p2.Z
+//@ ensures[x] p.X * (1 + k) == nx * p.Z
+//@ ensures[y] p.Y * (1 - k) == ny * p.Z
+//@ ensures[z] p.Z == pow(z12, 4) * (1 - k) * (1 + k)
+//@ ensures[result] result == p
+//@ modifies p
+//@ end
+
+//@ func PointProj.Double
+//@ layer ring fr.Element
+//@ option distribute
+//@ ghost-param x1, y1
+//@ let p1.X = x1*p1.Z
+//@ let p1.Y = y1*p1.Z
+//@ modulo curveParams.D*x1*x1*y1*y1 = (-5)*x1*x1 + y1*y1 - 1
+//@ ghost k = curveParams.D * x1 * x1 * y1 * y1
+//@ ghost den = (-5)*x1*x1 + y1*y1
+//@ ghost z1 = p1.Z
+//@ ensures[x] eqmod(p.X * (1 + k), 2*x1*y1 * p.Z)
+//@ ensures[y] eqmod(p.Y * (1 - k), (y1*y1 - (-5)*x1*x1) * p.Z)
+//@ ensures[z] p.Z == pow(z1, 4) * den * (den - 2)
+//@ ensures[result] result == p
+//@ modifies p
+//@ end
+
+// ---------------- extended ----------------
+
+//@ func PointExtended.Set
+//@ layer ring fr.Element
+//@ option distribute
+//@ ensures[value] p.X == old(p1.X) && p.Y == old(p1.Y) && p.Z == old(p1.Z) && p.T == old(p1.T)
+//@ ensures[result] result == p
+//@ modifies p
+//@ end
+
+//@ func PointExtended.setInfinity
+//@ layer ring fr.Element
+//@ option distribute
+//@ ensures[value] p.X == 0 && p.Y == 1 && p.Z == 1 && p.T == 0
+//@ ensures[result] result == p
+//@ modifies p
+//@ end
+
+//@ func PointExtended.Neg
+//@ layer ring fr.Element
+//@ option distribute
+//@ ensures[value] p.X == -old(p1.X) && p.Y == old(p1.Y) && p.Z == old(p1.Z) && p.T == -old(p1.T)
+//@ ensures[result] result == p
+//@ modifies p
+//@ end
+
+//@ func PointExtended.FromAffine
+//@ layer ring fr.Element
+//@ option distribute
+//@ ensures[value] p.X == p1.X && p.Y == p1.Y && p.Z == 1 && p.T == p1.X*p1.Y
+//@ ensures[result] result == p
+//@ modifies p
+//@ end
+
+//@ func PointExtended.Add
+//@ layer ring fr.Element
+//@ option distribute
+//@ ghost-param x1, y1, x2, y2
+//@ let p1.X = x1*p1.Z
+//@ let p1.Y = y1*p1.Z
+//@ let p1.T = x1*y1*p1.Z
+//@ let p2.X = x2*p2.Z
+//@ let p2.Y = y2*p2.Z
+//@ let p2.T = x2*y2*p2.Z
+//@ ghost k = curveParams.D * x1 * x2 * y1 * y2
+//@ ghost nx = x1*y2 + y1*x2
+//@ ghost ny = y1*y2 - (-5)*x1*x2
+//@ ghost z12 = p1.Z * p2.Z
+//@ ensures[x] p.X * (1 + k) == nx * p.Z
+//@ ensures[y] p.Y * (1 - k) == ny * p.Z
+//@ ensures[t] p.T * p.Z == p.X * p.Y
+//@ ensures[z] p.Z == pow(z12, 2) * (1 - k) * (1 + k)
+//@ ensures[result] result == p
+//@ modifies p
+//@ end
+
+//@ func PointExtended.Double
+//@ layer ring fr.Element
+//@ option distribute
+//@ ghost-param x1, y1
+//@ let p1.X = x1*p1.Z
+//@ let p1.Y = y1*p1.Z
+//@ let p1.T = x1*y1*p1.Z
+//@ modulo curveParams.D*x1*x1*y1*y1 = (-5)*x1*x1 + y1*y1 - 1
+//@ ghost k = curveParams.D * x1 * x1 * y1 * y1
+//@ ghost den = (-5)*x1*x1 + y1*y1
+//@ ghost z1 = p1.Z
+//@ ensures[x] eqmod(p.X * (1 + k), 2*x1*y1 * p.Z)
+//@ ensures[y] eqmod(p.Y * (1 - k), (y1*y1 - (-5)*x1*x1) * p.Z)
+//@ ensures[t] p.T * p.Z == p.X * p.Y
+//@ ensures[z] p.Z == pow(z1, 4) * den * (den - 2)
+//@ ensures[result] result == p
+//@ modifies p
+//@ end
+
+//@ func PointExtended.MixedDouble
+//@ layer ring fr.Element
+//@ option distribute
+//@ ghost-param x1, y1
+//@ let p1.X = x1*p1.Z
+//@ let p1.Y = y1*p1.Z
+//@ let p1.T = x1*y1*p1.Z
+//@ modulo curveParams.D*x1*x1*y1*y1 = (-5)*x1*x1 + y1*y1 - 1
+//@ ghost normalized = iszero(p1.Z - 1)
+//@ ghost k = curveParams.D * x1 * x1 * y1 * y1
+//@ ghost den = (-5)*x1*x1 + y1*y1
+//@ ghost z1 = p1.Z
+//@ ensures[x] !normalized ==> eqmod(p.X * (1 + k), 2*x1*y1 * p.Z)
+//@ ensures[y] !normalized ==> eqmod(p.Y * (1 - k), (y1*y1 - (-5)*x1*x1) * p.Z)
+//@ ensures[z] !normalized ==> p.Z == pow(z1, 4) * den * (den - 2)
+//@ ensures[mixed-x] normalized ==> eqmod(p.X * (1 + k), 2*x1*y1 * p.Z, z1, 1)
+//@ ensures[mixed-y] normalized ==> eqmod(p.Y * (1 - k), (y1*y1 - (-5)*x1*x1) * p.Z, z1, 1)
+//@ ensures[mixed-z] normalized ==> eqmod(p.Z, den * (den - 2), z1, 1)
+//@ ensures[t] p.T * p.Z == p.X * p.Y
+//@ ensures[result] result == p
+//@ modifies p
+//@ end
+
+//@ func PointExtended.MixedAdd
+//@ layer ring fr.Element
+//@ option distribute
+//@ ghost-param x1, y1
+//@ let p1.X = x1*p1.Z
+//@ let p1.Y = y1*p1.Z
+//@ let p1.T = x1*y1*p1.Z
+//@ modulo curveParams.D*x1*x1*y1*y1 = (-5)*x1*x1 + y1*y1 - 1
+//@ modulo curveParams.D*p2.X*p2.X*p2.Y*p2.Y = (-5)*p2.X*p2.X + p2.Y*p2.Y - 1
+//@ ghost same = iszero(p1.X - p2.X*p1.Z) && iszero(p1.Y - p2.Y*p1.Z)
+//@ ghost k = curveParams.D * x1 * p2.X * y1 * p2.Y
+//@ ghost nx = x1*p2.Y + y1*p2.X
+//@ ghost ny = y1*p2.Y - (-5)*x1*p2.X
+//@ ghost kk = curveParams.D * x1 * x1 * y1 * y1
+//@ ghost z1 = p1.Z
+//@ ensures[add-x] !same ==> eqmod(p.X * (1 + k), nx * p.Z)
+//@ ensures[add-y] !same ==> eqmod(p.Y * (1 - k), ny * p.Z)
+//@ ensures[add-z] !same ==> p.Z == z1*z1 * (x1*p2.Y - y1*p2.X) * ((-5)*x1*p2.X + y1*p2.Y)
+//@ ghost normalized = iszero(p1.Z - 1)
+//@ ensures[double-x] same && !normalized ==> eqmod(p.X * (1 + kk), 2*x1*y1 * p.Z)
+//@ ensures[double-y] same && !normalized ==> eqmod(p.Y * (1 - kk), (y1*y1 - (-5)*x1*x1) * p.Z)
+//@ ensures[mixed-double-x] same && normalized ==> eqmod(p.X * (1 + kk), 2*x1*y1 * p.Z, z1, 1)
+//@ ensures[mixed-double-y] same && normalized ==> eqmod(p.Y * (1 - kk), (y1*y1 - (-5)*x1*x1) * p.Z, z1, 1)
+//@ ensures[t] p.T * p.Z == p.X * p.Y
+//@ ensures[result] result == p
+//@ modifies p
+//@ end
